@@ -21,6 +21,988 @@ Notation gt := (gt Sg U W).
 Notation sto := (sto Sg U W).
 Notation log := (log Sg U W).
 
-(* PROOFS GO HERE *)
+Notation procs := (procs Sg U W).
+Notation frt := (frt Sg U W).
+Notation wld := (wld Sg U W).
+Notation pl := (pl Sg U W).
+Notation pf := (pf Sg U W).
+Notation pw := (pw Sg U W).
+Notation pfull := (pfull Sg U W).
+Notation pquiet := (pquiet Sg U W).
+Notation plog := (plog Sg U W).
+Notation pok := (pok Sg U W).
+Notation pollv vr := (poll_one Sg U W poll cond next vr).
+Notation mkst := (Build_st Sg U W).
+Notation mkpl := (Build_pl Sg U W).
+
+(* ------------------------------------------------------------------ *)
+(* small list facts                                                    *)
+
+Lemma emit_times_app (l m : list (event Sg)) : emit_times (l ++ m) = emit_times l ++ emit_times m.
+Proof. unfold emit_times. apply flat_map_app. Qed.
+
+Lemma emit_times_none (l : list (event Sg)) :
+  Forall (fun e => is_emit e = false) l -> emit_times l = [].
+Proof.
+  intros H. induction H as [|e l He Hl IH]; [reflexivity|].
+  destruct e; cbn in *; try discriminate; exact IH.
+Qed.
+
+Lemma strip_emits_app (l m : list (event Sg)) : strip_emits (l ++ m) = strip_emits l ++ strip_emits m.
+Proof. unfold strip_emits. apply filter_app. Qed.
+
+Lemma only_emits_app (l m : list (event Sg)) : only_emits (l ++ m) = only_emits l ++ only_emits m.
+Proof. unfold only_emits. apply filter_app. Qed.
+
+Lemma Forall_forallb {A} (f : A -> bool) (l : list A) :
+  Forall (fun x => f x = true) l -> forallb f l = true.
+Proof. intros H. apply forallb_forall. apply Forall_forall. exact H. Qed.
+
+Lemma is_apply_not_emit (e : event Sg) : is_apply e = true -> is_emit e = false.
+Proof. destruct e; cbn; intros H; try discriminate; reflexivity. Qed.
+Lemma is_poll_not_emit (e : event Sg) : is_poll e = true -> is_emit e = false.
+Proof. destruct e; cbn; intros H; try discriminate; reflexivity. Qed.
+Lemma is_drop_not_emit (e : event Sg) : is_drop e = true -> is_emit e = false.
+Proof. destruct e; cbn; intros H; try discriminate; reflexivity. Qed.
+
+(* ------------------------------------------------------------------ *)
+(* the poll loop                                                       *)
+
+Definition acc0 (s : st) : pl :=
+  mkpl (keep_live U (procs s) (frt s)) (wld s) None []
+       (rev (drop_events Sg U (gt s) (procs s) (frt s)) ++ log s) true.
+
+Definition polled (vr : variant) (endt : Z) (force : bool) (s : st) : pl :=
+  fold_left (pollv vr (gt s) endt force (sto s)) (procs s) (acc0 s).
+
+(* what a poll event looks like *)
+Definition poll_ev_ok (vr : variant) (now endt : Z) (force : bool) (sg : Sg) (e : event Sg) : Prop :=
+  match e with
+  | EInvoke _ p start fin ts req now' v =>
+      now' = now /\ v = sg /\ start <= now /\ fin <= endt /\
+      fin = (if force then Z.min (start + req) endt else start + req) /\
+      ts = (if v_fix_ts vr && force && (endt <? start + req) then endt - start else req)
+  | EQuiet _ _ _ => True
+  | _ => False
+  end.
+
+Definition pf_lb (lo : Z) (o : option Z) : Prop :=
+  match o with None => True | Some d => lo <= d end.
+
+Lemma poll_one_spec vr now endt force sg (a : pl) p :
+  (exists ev, plog (pollv vr now endt force sg a p) = ev ++ plog a /\
+              Forall (poll_ev_ok vr now endt force sg) ev) /\
+  (pok (pollv vr now endt force sg a p) = true -> pok a = true) /\
+  (forall lo, lo <= 1 -> lo <= endt - now ->
+              pok (pollv vr now endt force sg a p) = true ->
+              pf_lb lo (pfull a) -> pf_lb lo (pfull (pollv vr now endt force sg a p))).
+Proof.
+  unfold poll_one.
+  set (e := match flook U (pf a) p with Some e => e | None => Build_fe U now None false end).
+  set (f0 := match flook U (pf a) p with Some _ => pf a | None => fset U (pf a) p e end).
+  destruct (ft e <=? now) eqn:Ele.
+  - apply Z.leb_le in Ele.
+    destruct (poll (pw a) p sg) as [req w1] eqn:Epoll.
+    set (fut := if force then Z.min (ft e + req) endt else ft e + req).
+    destruct (fut <=? endt) eqn:Efut.
+    + apply Z.leb_le in Efut.
+      set (ts := if v_fix_ts vr && force && (endt <? ft e + req) then endt - ft e else req).
+      destruct (cond w1 p ts sg) as [c w2] eqn:Econd.
+      destruct c.
+      * destruct (next w2 p ts sg) as [u w3] eqn:Enext.
+        cbn [Sched.plog Sched.pok Sched.pfull].
+        split; [|split].
+        -- exists [EInvoke Sg p (ft e) fut ts req now sg]. split; [reflexivity|].
+           constructor; [|constructor]. cbn. repeat split; try assumption; reflexivity.
+        -- intros H. apply andb_prop in H. apply H.
+        -- intros lo Hlo1 Hlo2 H Hlb. apply andb_prop in H. destruct H as [_ H].
+           assert (Hd : lo <= fut - now).
+           { apply orb_prop in H. destruct H as [H|H].
+             - apply Z.ltb_lt in H. lia.
+             - apply andb_prop in H. destruct H as [_ H]. apply Z.eqb_eq in H. lia. }
+           destruct (pfull a) as [d0|]; cbn in *; lia.
+      * cbn [Sched.plog Sched.pok Sched.pfull].
+        split; [|split].
+        -- exists [EQuiet Sg p now]. split; [reflexivity|]. constructor; [exact I|constructor].
+        -- intros H; exact H.
+        -- intros lo _ _ _ H; exact H.
+    + cbn [Sched.plog Sched.pok Sched.pfull].
+      split; [|split].
+      * exists []. split; [reflexivity|constructor].
+      * intros H. apply andb_prop in H. apply H.
+      * intros lo Hlo1 Hlo2 H Hlb. apply andb_prop in H. destruct H as [_ H].
+        apply Z.ltb_lt in H.
+        destruct (pfull a) as [d0|]; cbn in *; lia.
+  - apply Z.leb_gt in Ele.
+    cbn [Sched.plog Sched.pok Sched.pfull].
+    split; [|split].
+    + exists []. split; [reflexivity|constructor].
+    + intros H; exact H.
+    + intros lo Hlo1 Hlo2 H Hlb.
+      destruct (pfull a) as [d0|]; cbn in *; lia.
+Qed.
+
+Lemma poll_fold_spec vr now endt force sg ps : forall (a : pl),
+  (exists ev, plog (fold_left (pollv vr now endt force sg) ps a) = ev ++ plog a /\
+              Forall (poll_ev_ok vr now endt force sg) ev) /\
+  (pok (fold_left (pollv vr now endt force sg) ps a) = true -> pok a = true) /\
+  (forall lo, lo <= 1 -> lo <= endt - now ->
+              pok (fold_left (pollv vr now endt force sg) ps a) = true ->
+              pf_lb lo (pfull a) -> pf_lb lo (pfull (fold_left (pollv vr now endt force sg) ps a))).
+Proof.
+  induction ps as [|p ps IH]; intros a; cbn [fold_left].
+  - split; [|split].
+    + exists []. split; [reflexivity|constructor].
+    + intros H; exact H.
+    + intros lo _ _ _ H; exact H.
+  - destruct (IH (pollv vr now endt force sg a p)) as [[ev2 [Hl2 Hf2]] [Hok2 Hlb2]].
+    destruct (poll_one_spec vr now endt force sg a p) as [[ev1 [Hl1 Hf1]] [Hok1 Hlb1]].
+    split; [|split].
+    + exists (ev2 ++ ev1). split.
+      * rewrite Hl2, Hl1. apply app_assoc.
+      * apply Forall_app. split; assumption.
+    + intros H. apply Hok1, Hok2, H.
+    + intros lo Hlo1 Hlo2 H Hlb. apply Hlb2; try assumption.
+      apply Hlb1; try assumption. apply Hok2, H.
+Qed.
+
+(* ------------------------------------------------------------------ *)
+(* the pieces of the advance                                           *)
+
+Lemma drop_events_drops now ps (f : front U) :
+  Forall (fun e => is_drop e = true) (drop_events Sg U now ps f).
+Proof.
+  induction f as [|[q e] r IH]; cbn; [constructor|].
+  destruct (mem q ps); cbn; [exact IH|].
+  destruct (fu e); cbn; [constructor; [reflexivity|exact IH]|exact IH].
+Qed.
+
+Lemma collect_applies now (f : front U) : forall f' us ev,
+  collect Sg U now f = (f', us, ev) -> Forall (fun e => is_apply e = true) ev.
+Proof.
+  induction f as [|[q e] r IH]; intros f' us ev H; cbn in H.
+  - inversion H; subst. constructor.
+  - destruct (collect Sg U now r) as [[r' us'] ev'] eqn:Ec.
+    specialize (IH _ _ _ eq_refl).
+    destruct (ft e <=? now).
+    + destruct (fu e); inversion H; subst; [constructor; [reflexivity|exact IH]|exact IH].
+    + inversion H; subst. exact IH.
+Qed.
+
+Lemma nef_fold now (f : front U) : forall acc,
+  let r := fold_left (fun acc pe => if (now <? ft (snd pe)) && (ft (snd pe) <? acc)
+                                    then ft (snd pe) else acc) f acc in
+  r <= acc /\ (now < acc -> now < r).
+Proof.
+  induction f as [|pe f IH]; intros acc; cbn [fold_left].
+  - cbn. lia.
+  - cbn zeta in *.
+    destruct ((now <? ft (snd pe)) && (ft (snd pe) <? acc)) eqn:E.
+    + apply andb_prop in E. destruct E as [E1 E2].
+      apply Z.ltb_lt in E1. apply Z.ltb_lt in E2.
+      specialize (IH (ft (snd pe))). lia.
+    + apply IH.
+Qed.
+
+Lemma next_event_fixed_le now endt (f : front U) : next_event_fixed U now endt f <= endt.
+Proof. unfold next_event_fixed. apply (nef_fold now f endt). Qed.
+
+Lemma next_event_fixed_gt now endt (f : front U) : now < endt -> now < next_event_fixed U now endt f.
+Proof. unfold next_event_fixed. apply (nef_fold now f endt). Qed.
+
+Lemma next_event_fixed_ge now endt (f : front U) : now <= endt -> now <= next_event_fixed U now endt f.
+Proof.
+  intros H. destruct (Z.eq_dec now endt) as [E|E].
+  - subst now. unfold next_event_fixed.
+    assert (G : forall acc, acc <= endt ->
+              fold_left (fun acc pe => if (endt <? ft (snd pe)) && (ft (snd pe) <? acc)
+                                       then ft (snd pe) else acc) f acc = acc).
+    { clear H. induction f as [|pe f IH]; intros acc Ha; cbn [fold_left]; [reflexivity|].
+      destruct ((endt <? ft (snd pe)) && (ft (snd pe) <? acc)) eqn:E.
+      - apply andb_prop in E. destruct E as [E1 E2].
+        apply Z.ltb_lt in E1. apply Z.ltb_lt in E2. lia.
+      - apply IH, Ha. }
+    rewrite G; lia.
+  - assert (now < next_event_fixed U now endt f) by (apply next_event_fixed_gt; lia). lia.
+Qed.
+
+Lemma rows_pinned_rows fuel k now x : forall et,
+  Forall (fun e => e = EEmit Sg now x) (rows_pinned Sg fuel k now et x).
+Proof.
+  unfold rows_pinned.
+  induction fuel as [|n IH]; intros et; [constructor|].
+  destruct (et <=? now); [constructor; [reflexivity|apply IH]|constructor].
+Qed.
+
+Lemma emit_after_rows vr ee now et x rows et' :
+  emit_after Sg vr ee now et x = (rows, et') -> Forall (fun e => e = EEmit Sg now x) rows.
+Proof.
+  unfold emit_after. intros H.
+  destruct ee as [k|].
+  - destruct (et <=? now).
+    + apply pair_equal_spec in H. destruct H as [Hr _]. subst rows. destruct (v_fix_emit vr).
+      * constructor; [reflexivity|constructor].
+      * apply rows_pinned_rows.
+    + inversion H; subst. constructor.
+  - inversion H; subst. constructor; [reflexivity|constructor].
+Qed.
+
+Lemma emit_after_none vr now et x rows et' :
+  emit_after Sg vr None now et x = (rows, et') -> rows = [EEmit Sg now x] /\ et' = et.
+Proof. unfold emit_after. intros H. inversion H; subst. split; reflexivity. Qed.
+
+Lemma emit_after_fixed ee now et x rows et' :
+  emit_after Sg vfixed ee now et x = (rows, et') -> rows = [] \/ rows = [EEmit Sg now x].
+Proof.
+  unfold emit_after. intros H. destruct ee as [k|].
+  - destruct (et <=? now); inversion H; subst; cbn; [right|left]; reflexivity.
+  - inversion H; subst. right; reflexivity.
+Qed.
+
+(* ------------------------------------------------------------------ *)
+(* one pass, taken apart                                               *)
+
+Lemma iter_cases vr ee endt force et s s' f' et' ok :
+  iterv vr ee endt force et s = (s', f', et', ok) ->
+  ok = pok (polled vr endt force s) /\
+  f' = (if force && (gt s' =? endt) then false else force) /\
+  ( (pfull (polled vr endt force s) = None /\ v_fix_quiet vr = true /\ et' = et /\
+     s' = mkst (next_event_fixed U (gt s) endt (pf (polled vr endt force s))) (procs s)
+               (advance_quiet U (next_event_fixed U (gt s) endt (pf (polled vr endt force s))) true
+                              (pquiet (polled vr endt force s)) (pf (polled vr endt force s)))
+               (sto s) (pw (polled vr endt force s)) (plog (polled vr endt force s)))
+  \/ (pfull (polled vr endt force s) = None /\ v_fix_quiet vr = false /\ et' = et /\
+      s' = mkst (next_event_pinned U endt (pf (polled vr endt force s))) (procs s)
+                (pf (polled vr endt force s)) (sto s) (pw (polled vr endt force s))
+                (plog (polled vr endt force s)))
+  \/ (exists d f2 us ev sto' procs' rows,
+        pfull (polled vr endt force s) = Some d /\ gt s + d <= endt /\
+        collect Sg U (gt s + d) (advance_quiet U (gt s + d) false (pquiet (polled vr endt force s))
+                                               (pf (polled vr endt force s))) = (f2, us, ev) /\
+        commit (sto s) (procs s) us = (sto', procs') /\
+        emit_after Sg vr ee (gt s + d) et sto' = (rows, et') /\
+        s' = mkst (gt s + d) procs' f2 sto' (pw (polled vr endt force s))
+                  (rows ++ rev ev ++ plog (polled vr endt force s)))
+  \/ (exists d, pfull (polled vr endt force s) = Some d /\ endt < gt s + d /\ et' = et /\
+        s' = mkst endt (procs s) (pf (polled vr endt force s)) (sto s)
+                  (pw (polled vr endt force s)) (plog (polled vr endt force s))) ).
+Proof.
+  unfold iter. fold (acc0 s). fold (polled vr endt force s).
+  set (a := polled vr endt force s). intros H.
+  destruct (pfull a) as [d|] eqn:Efull.
+  - destruct (gt s + d <=? endt) eqn:Ed.
+    + apply Z.leb_le in Ed.
+      destruct (collect Sg U (gt s + d) (advance_quiet U (gt s + d) false (pquiet a) (pf a)))
+        as [[f2 us] ev] eqn:Ecol.
+      destruct (commit (sto s) (procs s) us) as [sto' procs'] eqn:Ecom.
+      destruct (emit_after Sg vr ee (gt s + d) et sto') as [rows et2] eqn:Eem.
+      inversion H; subst. split; [reflexivity|]. split; [reflexivity|].
+      right; right; left. exists d, f2, us, ev, sto', procs', rows.
+      repeat split; assumption.
+    + apply Z.leb_gt in Ed.
+      inversion H; subst. split; [reflexivity|]. split; [reflexivity|].
+      right; right; right. exists d. repeat split; assumption.
+  - destruct (v_fix_quiet vr) eqn:Eq.
+    + inversion H; subst. split; [reflexivity|]. split; [reflexivity|].
+      left. repeat split.
+    + inversion H; subst. split; [reflexivity|]. split; [reflexivity|].
+      right; left. repeat split.
+Qed.
+
+Lemma polled_lb vr endt force s lo :
+  lo <= 1 -> lo <= endt - gt s -> pok (polled vr endt force s) = true ->
+  pf_lb lo (pfull (polled vr endt force s)).
+Proof.
+  intros H1 H2 Hok. unfold polled in *.
+  apply (poll_fold_spec vr (gt s) endt force (sto s) (procs s) (acc0 s)); try assumption.
+  exact I.
+Qed.
+
+(* ------------------------------------------------------------------ *)
+(* the loop, taken apart                                               *)
+
+Lemma run_stop vr ee fuel endt force et s :
+  (gt s <? endt) || force = false -> runv vr ee fuel endt force et s = (Some s, true).
+Proof. intros H. destruct fuel; cbn [run]; rewrite H; reflexivity. Qed.
+
+Lemma run_zero vr ee endt force et s :
+  (gt s <? endt) || force = true -> runv vr ee 0 endt force et s = (None, true).
+Proof. intros H. cbn [run]. rewrite H. reflexivity. Qed.
+
+Lemma run_step vr ee n endt force et s :
+  (gt s <? endt) || force = true ->
+  runv vr ee (S n) endt force et s =
+  (let '(s', force', et', ok) := iterv vr ee endt force et s in
+   let '(r, ok') := runv vr ee n endt force' et' s' in (r, ok && ok')).
+Proof. intros H. cbn [run]. rewrite H. reflexivity. Qed.
+
+Lemma run_invariant vr ee endt (Inv : bool -> st -> Prop) (needok : bool) :
+  (forall force et s s' f' et' ok,
+     Inv force s -> (gt s <? endt) || force = true ->
+     iterv vr ee endt force et s = (s', f', et', ok) -> (needok = true -> ok = true) -> Inv f' s') ->
+  forall fuel force et s s' ok,
+    Inv force s -> runv vr ee fuel endt force et s = (Some s', ok) ->
+    (needok = true -> ok = true) -> Inv false s' /\ (gt s' <? endt) = false.
+Proof.
+  intros Hstep. induction fuel as [|n IH]; intros force et s s' ok HI Hrun Hneed.
+  - destruct ((gt s <? endt) || force) eqn:Ec.
+    + rewrite run_zero in Hrun by exact Ec. discriminate.
+    + rewrite run_stop in Hrun by exact Ec. inversion Hrun; subst.
+      apply orb_false_elim in Ec. destruct Ec as [E1 E2]. subst force. split; assumption.
+  - destruct ((gt s <? endt) || force) eqn:Ec.
+    + rewrite run_step in Hrun by exact Ec.
+      destruct (iterv vr ee endt force et s) as [[[s1 f1] et1] ok1] eqn:Eit.
+      destruct (runv vr ee n endt f1 et1 s1) as [r ok2] eqn:Erun.
+      inversion Hrun; subst.
+      assert (Hoks : needok = true -> ok1 = true /\ ok2 = true).
+      { intros Hn. apply andb_prop. apply Hneed, Hn. }
+      apply (IH f1 et1 s1 s' ok2).
+      * apply (Hstep force et s s1 f1 et1 ok1); try assumption.
+        intros Hn. apply Hoks, Hn.
+      * exact Erun.
+      * intros Hn. apply Hoks, Hn.
+    + rewrite run_stop in Hrun by exact Ec. inversion Hrun; subst.
+      apply orb_false_elim in Ec. destruct Ec as [E1 E2]. subst force. split; assumption.
+Qed.
+
+(* ------------------------------------------------------------------ *)
+(* C03: the clock                                                      *)
+
+(* never passes the end: unconditional *)
+Theorem iter_upper vr ee endt force et s s' f' et' ok :
+  vr = vfixed -> gt s <= endt -> iterv vr ee endt force et s = (s', f', et', ok) -> gt s' <= endt.
+Proof.
+  intros Hv Hle H. subst vr.
+  destruct (iter_cases _ _ _ _ _ _ _ _ _ _ H) as [_ [_ Hc]].
+  destruct Hc as [C|[C|[C|C]]].
+  - destruct C as [_ [_ [_ Hs]]]. subst s'. cbn [Sched.gt]. apply next_event_fixed_le.
+  - destruct C as [_ [Hq _]]. cbn in Hq. discriminate.
+  - destruct C as (d & f2 & us & ev & sto' & procs' & rows & _ & Hd & _ & _ & _ & Hs).
+    subst s'. cbn [Sched.gt]. exact Hd.
+  - destruct C as (d & _ & _ & _ & Hs). subst s'. cbn [Sched.gt]. lia.
+Qed.
+
+(* never decreases / strictly advances while before the end: under the ok flag *)
+Theorem iter_mono ee endt force et s s' f' et' :
+  gt s <= endt -> iterv vfixed ee endt force et s = (s', f', et', true) -> gt s <= gt s' <= endt.
+Proof.
+  intros Hle H.
+  destruct (iter_cases _ _ _ _ _ _ _ _ _ _ H) as [Hok [_ Hc]].
+  symmetry in Hok.
+  assert (Hlb := polled_lb vfixed endt force s 0 ltac:(lia) ltac:(lia) Hok).
+  destruct Hc as [C|[C|[C|C]]].
+  - destruct C as [_ [_ [_ Hs]]]. subst s'. cbn [Sched.gt].
+    split; [apply next_event_fixed_ge; exact Hle|apply next_event_fixed_le].
+  - destruct C as [_ [Hq _]]. cbn in Hq. discriminate.
+  - destruct C as (d & f2 & us & ev & sto' & procs' & rows & Hfull & Hd & _ & _ & _ & Hs).
+    subst s'. cbn [Sched.gt]. rewrite Hfull in Hlb. cbn in Hlb. lia.
+  - destruct C as (d & _ & _ & _ & Hs). subst s'. cbn [Sched.gt]. lia.
+Qed.
+
+Theorem iter_progress ee endt force et s s' f' et' :
+  gt s < endt -> iterv vfixed ee endt force et s = (s', f', et', true) -> gt s < gt s'.
+Proof.
+  intros Hlt H.
+  destruct (iter_cases _ _ _ _ _ _ _ _ _ _ H) as [Hok [_ Hc]].
+  symmetry in Hok.
+  assert (Hlb := polled_lb vfixed endt force s 1 ltac:(lia) ltac:(lia) Hok).
+  destruct Hc as [C|[C|[C|C]]].
+  - destruct C as [_ [_ [_ Hs]]]. subst s'. cbn [Sched.gt].
+    apply next_event_fixed_gt; exact Hlt.
+  - destruct C as [_ [Hq _]]. cbn in Hq. discriminate.
+  - destruct C as (d & f2 & us & ev & sto' & procs' & rows & Hfull & Hd & _ & _ & _ & Hs).
+    subst s'. cbn [Sched.gt]. rewrite Hfull in Hlb. cbn in Hlb. lia.
+  - destruct C as (d & _ & _ & _ & Hs). subst s'. cbn [Sched.gt]. lia.
+Qed.
+
+Theorem iter_force_flag vr ee endt force et s s' f' et' ok :
+  iterv vr ee endt force et s = (s', f', et', ok) -> f' = (force && negb (gt s' =? endt)).
+Proof.
+  intros H.
+  destruct (iter_cases _ _ _ _ _ _ _ _ _ _ H) as [_ [Hf _]].
+  rewrite Hf. destruct force, (gt s' =? endt); reflexivity.
+Qed.
+
+(* when a call returns the global time is exactly the end (no ok needed) *)
+Theorem run_lands ee fuel endt force et s s' ok :
+  gt s <= endt -> runv vfixed ee fuel endt force et s = (Some s', ok) -> gt s' = endt.
+Proof.
+  intros Hle Hrun.
+  destruct (run_invariant vfixed ee endt (fun _ x => gt x <= endt) false) with
+      (fuel := fuel) (force := force) (et := et) (s := s) (s' := s') (ok := ok) as [H1 H2].
+  - intros force0 et0 x x' f' et' ok0 HI _ Hit _.
+    apply (iter_upper vfixed ee endt force0 et0 x x' f' et' ok0 eq_refl HI Hit).
+  - exact Hle.
+  - exact Hrun.
+  - intros Hn; discriminate.
+  - apply Z.ltb_ge in H2. lia.
+Qed.
+
+Theorem run_mono ee fuel endt force et s s' :
+  gt s <= endt -> runv vfixed ee fuel endt force et s = (Some s', true) -> gt s <= gt s'.
+Proof.
+  intros Hle Hrun.
+  destruct (run_invariant vfixed ee endt (fun _ x => gt s <= gt x <= endt) true) with
+      (fuel := fuel) (force := force) (et := et) (s := s) (s' := s') (ok := true) as [H1 H2].
+  - intros force0 et0 x x' f' et' ok0 HI _ Hit Hok.
+    rewrite (Hok eq_refl) in Hit.
+    assert (Hm := iter_mono ee endt force0 et0 x x' f' et' ltac:(lia) Hit). lia.
+  - lia.
+  - exact Hrun.
+  - intros _; reflexivity.
+  - lia.
+Qed.
+
+(* termination: with this much fuel the loop can only run out if some iteration was not ok *)
+Lemma run_fuel_enough_gen ee fuel : forall endt force et s ok,
+  gt s <= endt -> (Z.to_nat (endt - gt s) + 1 <= fuel)%nat ->
+  runv vfixed ee fuel endt force et s = (None, ok) -> ok = false.
+Proof.
+  induction fuel as [|n IH]; intros endt force et s ok Hle Hfuel Hrun; [lia|].
+  destruct ((gt s <? endt) || force) eqn:Ec.
+  - rewrite run_step in Hrun by exact Ec.
+    destruct (iterv vfixed ee endt force et s) as [[[s1 f1] et1] ok1] eqn:Eit.
+    destruct (runv vfixed ee n endt f1 et1 s1) as [r ok2] eqn:Erun.
+    inversion Hrun; subst.
+    destruct ok1; [|reflexivity]. cbn [andb].
+    assert (Hm := iter_mono ee endt force et s s1 f1 et1 Hle Eit).
+    assert (Hff := iter_force_flag _ _ _ _ _ _ _ _ _ _ Eit).
+    destruct (Z.eq_dec (gt s1) endt) as [E|E].
+    + rewrite E, Z.eqb_refl, andb_false_r in Hff. subst f1.
+      rewrite run_stop in Erun; [discriminate|].
+      rewrite E, Z.ltb_irrefl. reflexivity.
+    + destruct (Z.eq_dec (gt s) endt) as [E2|E2]; [lia|].
+      assert (Hp := iter_progress ee endt force et s s1 f1 et1 ltac:(lia) Eit).
+      apply (IH endt f1 et1 s1 ok2); [lia|lia|exact Erun].
+  - rewrite run_stop in Hrun by exact Ec. discriminate.
+Qed.
+
+Theorem run_fuel_enough ee fuel endt force et s ok :
+  gt s <= endt -> (Z.to_nat (endt - gt s) + 2 <= fuel)%nat ->
+  runv vfixed ee fuel endt force et s = (None, ok) -> ok = false.
+Proof.
+  intros Hle Hfuel Hrun.
+  apply (run_fuel_enough_gen ee fuel endt force et s ok Hle); [lia|exact Hrun].
+Qed.
+
+Theorem run_for_lands ee fuel i force s s' ok :
+  0 <= i -> run_forv vfixed ee fuel i force s = (Some s', ok) -> gt s' = gt s + i.
+Proof.
+  intros Hi Hrun. unfold run_for in Hrun.
+  eapply (run_lands ee fuel (gt s + i) force); [|exact Hrun]. lia.
+Qed.
+
+Theorem run_calls_land ee fuel calls : forall s s' ok,
+  Forall (fun c => 0 <= fst c) calls ->
+  run_callsv vfixed ee fuel calls s = (Some s', ok) ->
+  gt s' = gt s + fold_right (fun c acc => fst c + acc) 0 calls.
+Proof.
+  induction calls as [|[i f] r IH]; intros s s' ok Hall Hrun.
+  - cbn in Hrun. inversion Hrun; subst. cbn. lia.
+  - cbn [run_calls] in Hrun. inversion Hall as [|c l Hi Hr]; subst. cbn [fst] in Hi.
+    destruct (run_forv vfixed ee fuel i f s) as [[s1|] ok1] eqn:E1; [|discriminate].
+    destruct (run_callsv vfixed ee fuel r s1) as [r' ok'] eqn:E2.
+    inversion Hrun; subst.
+    rewrite (IH _ _ _ Hr E2). rewrite (run_for_lands _ _ _ _ _ _ _ Hi E1).
+    cbn [fold_right fst]. lia.
+Qed.
+
+(* ------------------------------------------------------------------ *)
+(* C02 (local) and C04: what one pass logs                             *)
+
+Lemma polled_log vr endt force s :
+  exists polls, plog (polled vr endt force s)
+                = polls ++ rev (drop_events Sg U (gt s) (procs s) (frt s)) ++ log s /\
+                Forall (poll_ev_ok vr (gt s) endt force (sto s)) polls.
+Proof.
+  unfold polled.
+  destruct (poll_fold_spec vr (gt s) endt force (sto s) (procs s) (acc0 s)) as [[ev [Hl Hf]] _].
+  exists ev. split; [exact Hl|exact Hf].
+Qed.
+
+Lemma poll_ev_ok_is_poll vr now endt force sg e : poll_ev_ok vr now endt force sg e -> is_poll e = true.
+Proof. destruct e; cbn; intros H; try reflexivity; contradiction. Qed.
+
+(* the strong form of the shape of the log of one pass *)
+Lemma iter_struct vr ee endt force et s s' f' et' ok :
+  iterv vr ee endt force et s = (s', f', et', ok) ->
+  exists rows applies polls drops,
+    log s' = rows ++ applies ++ polls ++ drops ++ log s /\
+    (rows = [] \/ exists et0, emit_after Sg vr ee (gt s') et0 (sto s') = (rows, et')) /\
+    Forall (fun e => is_apply e = true) applies /\
+    Forall (poll_ev_ok vr (gt s) endt force (sto s)) polls /\
+    Forall (fun e => is_drop e = true) drops.
+Proof.
+  intros H.
+  destruct (iter_cases _ _ _ _ _ _ _ _ _ _ H) as [_ [_ Hc]].
+  destruct (polled_log vr endt force s) as [polls [Hpl Hpolls]].
+  assert (Hdrops : Forall (fun e : event Sg => is_drop e = true)
+                          (rev (drop_events Sg U (gt s) (procs s) (frt s)))).
+  { apply Forall_rev. apply drop_events_drops. }
+  destruct Hc as [C|[C|[C|C]]].
+  - destruct C as [_ [_ [_ Hs]]]. subst s'. cbn [Sched.log].
+    exists [], [], polls, (rev (drop_events Sg U (gt s) (procs s) (frt s))).
+    split; [rewrite Hpl; reflexivity|]. split; [left; reflexivity|].
+    split; [constructor|]. split; assumption.
+  - destruct C as [_ [_ [_ Hs]]]. subst s'. cbn [Sched.log].
+    exists [], [], polls, (rev (drop_events Sg U (gt s) (procs s) (frt s))).
+    split; [rewrite Hpl; reflexivity|]. split; [left; reflexivity|].
+    split; [constructor|]. split; assumption.
+  - destruct C as (d & f2 & us & ev & sto' & procs' & rows & _ & _ & Hcol & _ & Hem & Hs).
+    subst s'. cbn [Sched.log Sched.gt Sched.sto].
+    exists rows, (rev ev), polls, (rev (drop_events Sg U (gt s) (procs s) (frt s))).
+    split; [rewrite Hpl; reflexivity|]. split; [right; exists et; exact Hem|].
+    split; [apply Forall_rev; apply (collect_applies _ _ _ _ _ Hcol)|]. split; assumption.
+  - destruct C as (d & _ & _ & _ & Hs). subst s'. cbn [Sched.log].
+    exists [], [], polls, (rev (drop_events Sg U (gt s) (procs s) (frt s))).
+    split; [rewrite Hpl; reflexivity|]. split; [left; reflexivity|].
+    split; [constructor|]. split; assumption.
+Qed.
+
+Lemma iter_struct_rows vr ee (s' : st) et' rows :
+  rows = [] \/ (exists et0, emit_after Sg vr ee (gt s') et0 (sto s') = (rows, et')) ->
+  Forall (fun e => e = EEmit Sg (gt s') (sto s')) rows.
+Proof.
+  intros [Hr|[et0 Hr]]; [subst; constructor|].
+  apply (emit_after_rows _ _ _ _ _ _ _ Hr).
+Qed.
+
+(* the new events are: rows, then applications, then invocations/quiet marks, then drops
+   (newest first) *)
+Theorem iter_log_shape vr ee endt force et s s' f' et' ok :
+  iterv vr ee endt force et s = (s', f', et', ok) ->
+  exists rows applies polls drops,
+    log s' = rows ++ applies ++ polls ++ drops ++ log s /\
+    forallb is_emit rows = true /\ forallb is_apply applies = true /\
+    forallb is_poll polls = true /\ forallb is_drop drops = true.
+Proof.
+  intros H.
+  destruct (iter_struct _ _ _ _ _ _ _ _ _ _ H)
+    as (rows & applies & polls & drops & Hlog & Hrows & Happ & Hpolls & Hdrops).
+  exists rows, applies, polls, drops.
+  split; [exact Hlog|].
+  split.
+  { apply Forall_forallb.
+    assert (Hr := iter_struct_rows vr ee s' et' rows Hrows).
+    apply (Forall_impl _ (P := fun e => e = EEmit Sg (gt s') (sto s'))); [|exact Hr].
+    intros e He. subst e. reflexivity. }
+  split; [apply Forall_forallb; exact Happ|].
+  split; [|apply Forall_forallb; exact Hdrops].
+  apply Forall_forallb.
+  apply (Forall_impl _ (P := poll_ev_ok vr (gt s) endt force (sto s))); [|exact Hpolls].
+  intros e He. apply (poll_ev_ok_is_poll _ _ _ _ _ _ He).
+Qed.
+
+(* every invocation of one pass sees the same committed state, at the same time, and is handed
+   exactly the length of the interval it covers: the requested timestep, or the remainder when
+   forced completion cuts it short *)
+Theorem iter_invokes ee endt force et s s' f' et' ok :
+  iterv vfixed ee endt force et s = (s', f', et', ok) ->
+  exists new, log s' = new ++ log s /\
+    Forall (fun e => match e with
+                     | EInvoke _ p start fin ts req now v =>
+                         ts = fin - start /\ now = gt s /\ v = sto s /\ start <= now /\ fin <= endt /\
+                         (ts = req \/ (force = true /\ fin = endt /\ ts < req))
+                     | _ => True
+                     end) new.
+Proof.
+  intros H.
+  destruct (iter_struct _ _ _ _ _ _ _ _ _ _ H)
+    as (rows & applies & polls & drops & Hlog & Hrows & Happ & Hpolls & Hdrops).
+  assert (Hr := iter_struct_rows vfixed ee s' et' rows Hrows).
+  exists (rows ++ applies ++ polls ++ drops).
+  split; [rewrite Hlog; repeat rewrite <- app_assoc; reflexivity|].
+  repeat (apply Forall_app; split).
+  - revert Hr; apply Forall_impl; intros e He. subst e. exact I.
+  - revert Happ; apply Forall_impl; intros e He. destruct e; try exact I; discriminate.
+  - revert Hpolls; apply Forall_impl; intros e He.
+    destruct e as [p0 start fin ts req now view|p0 now|p0 fin now|now x|p0 fin now]; try exact I.
+    cbn in He. destruct He as (Hn & Hv & Hs & Hfin & Hfut & Hts). subst now view.
+    cbn [v_fix_ts vfixed andb] in Hts.
+    destruct force; cbn [andb] in Hts.
+    + destruct (endt <? start + req) eqn:E.
+      * apply Z.ltb_lt in E. split; [lia|]. do 4 (split; [first [reflexivity|assumption]|]).
+        right. lia.
+      * apply Z.ltb_ge in E. split; [lia|]. do 4 (split; [first [reflexivity|assumption]|]).
+        left. lia.
+    + split; [lia|]. do 4 (split; [first [reflexivity|assumption]|]). left. lia.
+  - revert Hdrops; apply Forall_impl; intros e He. destruct e; try exact I; discriminate.
+Qed.
+
+Lemma iter_invoke_ts ee endt force et s s' f' et' ok :
+  log_inv_ok (log s) -> iterv vfixed ee endt force et s = (s', f', et', ok) -> log_inv_ok (log s').
+Proof.
+  intros Hinv H. destruct (iter_invokes _ _ _ _ _ _ _ _ _ H) as [new [Hlog Hnew]].
+  unfold log_inv_ok in *. rewrite Hlog. apply Forall_app. split; [|exact Hinv].
+  revert Hnew; apply Forall_impl; intros e He. destruct e; try exact I. apply He.
+Qed.
+
+Theorem run_invoke_ts ee fuel endt force et s s' ok :
+  log_inv_ok (log s) -> runv vfixed ee fuel endt force et s = (Some s', ok) -> log_inv_ok (log s').
+Proof.
+  intros Hinv Hrun.
+  destruct (run_invariant vfixed ee endt (fun _ x => log_inv_ok (log x)) false) with
+      (fuel := fuel) (force := force) (et := et) (s := s) (s' := s') (ok := ok) as [H1 H2].
+  - intros force0 et0 x x' f' et' ok0 HI _ Hit _.
+    apply (iter_invoke_ts _ _ _ _ _ _ _ _ _ HI Hit).
+  - exact Hinv.
+  - exact Hrun.
+  - intros Hn; discriminate.
+  - exact H1.
+Qed.
+
+Theorem run_calls_invoke_ts ee fuel calls : forall s s' ok,
+  log_inv_ok (log s) -> run_callsv vfixed ee fuel calls s = (Some s', ok) -> log_inv_ok (log s').
+Proof.
+  induction calls as [|[i f] r IH]; intros s s' ok Hinv Hrun.
+  - cbn in Hrun. inversion Hrun; subst. exact Hinv.
+  - cbn [run_calls] in Hrun.
+    destruct (run_forv vfixed ee fuel i f s) as [[s1|] ok1] eqn:E1; [|discriminate].
+    destruct (run_callsv vfixed ee fuel r s1) as [r' ok'] eqn:E2.
+    inversion Hrun; subst.
+    apply (IH _ _ _ (run_invoke_ts _ _ _ _ _ _ _ _ Hinv E1) E2).
+Qed.
+
+(* ------------------------------------------------------------------ *)
+(* C12: rows                                                           *)
+
+(* rows on top, then events that are not rows *)
+Lemma iter_struct2 vr ee endt force et s s' f' et' ok :
+  iterv vr ee endt force et s = (s', f', et', ok) ->
+  exists rows rest,
+    log s' = rows ++ rest ++ log s /\
+    (rows = [] \/ exists et0, emit_after Sg vr ee (gt s') et0 (sto s') = (rows, et')) /\
+    Forall (fun e => e = EEmit Sg (gt s') (sto s')) rows /\
+    Forall (fun e => is_emit e = false) rest.
+Proof.
+  intros H.
+  destruct (iter_struct _ _ _ _ _ _ _ _ _ _ H)
+    as (rows & applies & polls & drops & Hlog & Hrows & Happ & Hpolls & Hdrops).
+  exists rows, (applies ++ polls ++ drops).
+  split; [rewrite Hlog; repeat rewrite <- app_assoc; reflexivity|].
+  split; [exact Hrows|].
+  split; [apply (iter_struct_rows vr ee s' et' rows Hrows)|].
+  repeat (apply Forall_app; split).
+  - revert Happ; apply Forall_impl; intros e He. apply is_apply_not_emit, He.
+  - revert Hpolls; apply Forall_impl; intros e He.
+    apply is_poll_not_emit. apply (poll_ev_ok_is_poll _ _ _ _ _ _ He).
+  - revert Hdrops; apply Forall_impl; intros e He. apply is_drop_not_emit, He.
+Qed.
+
+(* a row is the state after the batch, stamped with the time of the batch *)
+Theorem iter_row_content vr ee endt force et s s' f' et' ok :
+  iterv vr ee endt force et s = (s', f', et', ok) ->
+  exists new, log s' = new ++ log s /\
+    Forall (fun e => match e with EEmit _ now x => now = gt s' /\ x = sto s' | _ => True end) new.
+Proof.
+  intros H.
+  destruct (iter_struct2 _ _ _ _ _ _ _ _ _ _ H) as (rows & rest & Hlog & _ & Hrows & Hrest).
+  exists (rows ++ rest). split; [rewrite Hlog, <- app_assoc; reflexivity|].
+  apply Forall_app; split.
+  - revert Hrows; apply Forall_impl; intros e He. subst e. split; reflexivity.
+  - revert Hrest; apply Forall_impl; intros e He. destruct e; try exact I. discriminate.
+Qed.
+
+(* emit_step 1: exactly one row per batch, none otherwise *)
+Theorem iter_rows_every_batch vr endt force et s s' f' et' ok :
+  iterv vr None endt force et s = (s', f', et', ok) ->
+  exists new, log s' = new ++ log s /\
+    (emit_times new = [] \/ exists rest, new = EEmit Sg (gt s') (sto s') :: rest /\ emit_times rest = []).
+Proof.
+  intros H.
+  destruct (iter_struct2 _ _ _ _ _ _ _ _ _ _ H) as (rows & rest & Hlog & Hrows & _ & Hrest).
+  exists (rows ++ rest). split; [rewrite Hlog, <- app_assoc; reflexivity|].
+  destruct Hrows as [Hr|[et0 Hr]].
+  - left. subst rows. cbn [app]. apply emit_times_none, Hrest.
+  - right. apply emit_after_none in Hr. destruct Hr as [Hr _]. subst rows.
+    exists rest. split; [reflexivity|]. apply emit_times_none, Hrest.
+Qed.
+
+(* the rows of one pass of the repaired code *)
+Lemma iter_rows_fixed ee endt force et s s' f' et' ok :
+  iterv vfixed ee endt force et s = (s', f', et', ok) ->
+  exists new, log s' = new ++ log s /\
+    (emit_times new = [] \/ emit_times new = [gt s']).
+Proof.
+  intros H.
+  destruct (iter_struct2 _ _ _ _ _ _ _ _ _ _ H) as (rows & rest & Hlog & Hrows & _ & Hrest).
+  exists (rows ++ rest). split; [rewrite Hlog, <- app_assoc; reflexivity|].
+  rewrite emit_times_app, (emit_times_none rest Hrest), app_nil_r.
+  destruct Hrows as [Hr|[et0 Hr]].
+  - left. subst rows. reflexivity.
+  - apply emit_after_fixed in Hr. destruct Hr as [Hr|Hr]; subst rows; [left|right]; reflexivity.
+Qed.
+
+(* any emit_step, repaired code: at most one row per pass *)
+Theorem iter_rows_at_most_one ee endt force et s s' f' et' ok :
+  iterv vfixed ee endt force et s = (s', f', et', ok) ->
+  exists new, log s' = new ++ log s /\ (length (emit_times new) <= 1)%nat.
+Proof.
+  intros H.
+  destruct (iter_rows_fixed _ _ _ _ _ _ _ _ _ H) as (new & Hlog & [Hn|Hn]).
+  - exists new. split; [exact Hlog|]. rewrite Hn. cbn. lia.
+  - exists new. split; [exact Hlog|]. rewrite Hn. cbn. lia.
+Qed.
+
+(* time keys strictly increase (newest first: strictly decreasing list) *)
+Theorem iter_emits_increasing ee endt force et s s' f' et' :
+  gt s < endt -> iterv vfixed ee endt force et s = (s', f', et', true) ->
+  emits_le (gt s) (log s) -> StronglySorted Z.gt (emit_times (log s)) ->
+  emits_le (gt s') (log s') /\ StronglySorted Z.gt (emit_times (log s')).
+Proof.
+  intros Hlt H Hle Hss.
+  assert (Hp := iter_progress _ _ _ _ _ _ _ _ Hlt H).
+  destruct (iter_rows_fixed _ _ _ _ _ _ _ _ _ H) as (new & Hlog & Hn).
+  unfold emits_le in *. rewrite Hlog, emit_times_app.
+  assert (Hle' : Forall (fun t => t < gt s') (emit_times (log s))).
+  { revert Hle; apply Forall_impl; intros t Ht. lia. }
+  destruct Hn as [Hn|Hn]; rewrite Hn; cbn [app].
+  - split; [|exact Hss]. revert Hle'; apply Forall_impl; intros t Ht. lia.
+  - split.
+    + constructor; [lia|]. revert Hle'; apply Forall_impl; intros t Ht. lia.
+    + constructor; [exact Hss|]. revert Hle'; apply Forall_impl; intros t Ht. lia.
+Qed.
+
+Lemma run_emits_increasing ee fuel endt force et s s' :
+  gt s < endt -> runv vfixed ee fuel endt force et s = (Some s', true) ->
+  emits_le (gt s) (log s) -> StronglySorted Z.gt (emit_times (log s)) ->
+  emits_le (gt s') (log s') /\ StronglySorted Z.gt (emit_times (log s')).
+Proof.
+  intros Hlt Hrun Hle Hss.
+  destruct (run_invariant vfixed ee endt
+              (fun f x => (gt x < endt \/ (gt x = endt /\ f = false)) /\
+                          emits_le (gt x) (log x) /\ StronglySorted Z.gt (emit_times (log x))) true)
+    with (fuel := fuel) (force := force) (et := et) (s := s) (s' := s') (ok := true) as [H1 H2].
+  - intros force0 et0 x x' f' et' ok0 [Hpos [Hle0 Hss0]] Hc Hit Hok.
+    rewrite (Hok eq_refl) in Hit.
+    destruct Hpos as [Hpos|[Hpos1 Hpos2]].
+    + destruct (iter_emits_increasing _ _ _ _ _ _ _ _ Hpos Hit Hle0 Hss0) as [Hle1 Hss1].
+      split; [|split; assumption].
+      assert (Hm := iter_mono ee endt force0 et0 x x' f' et' ltac:(lia) Hit).
+      assert (Hff := iter_force_flag _ _ _ _ _ _ _ _ _ _ Hit).
+      destruct (Z.eq_dec (gt x') endt) as [E|E].
+      * right. split; [exact E|]. rewrite Hff, E, Z.eqb_refl, andb_false_r. reflexivity.
+      * left. lia.
+    + exfalso. subst force0. rewrite Hpos1, Z.ltb_irrefl in Hc. discriminate.
+  - split; [left; exact Hlt|split; assumption].
+  - exact Hrun.
+  - intros _; reflexivity.
+  - destruct H1 as [_ H1]. exact H1.
+Qed.
+
+Theorem run_for_emits_increasing ee fuel i force s s' :
+  0 < i -> run_forv vfixed ee fuel i force s = (Some s', true) ->
+  emits_le (gt s) (log s) -> StronglySorted Z.gt (emit_times (log s)) ->
+  emits_le (gt s') (log s') /\ StronglySorted Z.gt (emit_times (log s')).
+Proof.
+  intros Hi Hrun Hle Hss. unfold run_for in Hrun.
+  eapply (run_emits_increasing ee fuel (gt s + i) force); [|exact Hrun|exact Hle|exact Hss]. lia.
+Qed.
+
+(* ------------------------------------------------------------------ *)
+(* emitting has no effect on the simulation                            *)
+
+Definition pl_sim (a b : pl) : Prop :=
+  pf a = pf b /\ pw a = pw b /\ pfull a = pfull b /\ pquiet a = pquiet b /\ pok a = pok b.
+
+Lemma poll_one_sim vr now endt force sg (a b : pl) p :
+  pl_sim a b ->
+  pl_sim (pollv vr now endt force sg a p) (pollv vr now endt force sg b p) /\
+  exists ev, plog (pollv vr now endt force sg a p) = ev ++ plog a /\
+             plog (pollv vr now endt force sg b p) = ev ++ plog b.
+Proof.
+  intros (H1 & H2 & H3 & H4 & H5).
+  unfold poll_one. rewrite <- H1, <- H2, <- H3, <- H4, <- H5.
+  set (e := match flook U (pf a) p with Some e => e | None => Build_fe U now None false end).
+  set (f0 := match flook U (pf a) p with Some _ => pf a | None => fset U (pf a) p e end).
+  destruct (ft e <=? now).
+  - destruct (poll (pw a) p sg) as [req w1].
+    set (fut := if force then Z.min (ft e + req) endt else ft e + req).
+    destruct (fut <=? endt).
+    + set (ts := if v_fix_ts vr && force && (endt <? ft e + req) then endt - ft e else req).
+      destruct (cond w1 p ts sg) as [c w2].
+      destruct c.
+      * destruct (next w2 p ts sg) as [u w3].
+        split; [unfold pl_sim; cbn; repeat split; reflexivity|].
+        exists [EInvoke Sg p (ft e) fut ts req now sg]. split; reflexivity.
+      * split; [unfold pl_sim; cbn; repeat split; reflexivity|].
+        exists [EQuiet Sg p now]. split; reflexivity.
+    + split; [unfold pl_sim; cbn; repeat split; reflexivity|].
+      exists []. split; reflexivity.
+  - split; [unfold pl_sim; cbn; repeat split; reflexivity|].
+    exists []. split; reflexivity.
+Qed.
+
+Lemma poll_fold_sim vr now endt force sg ps : forall (a b : pl),
+  pl_sim a b ->
+  pl_sim (fold_left (pollv vr now endt force sg) ps a) (fold_left (pollv vr now endt force sg) ps b) /\
+  exists ev, plog (fold_left (pollv vr now endt force sg) ps a) = ev ++ plog a /\
+             plog (fold_left (pollv vr now endt force sg) ps b) = ev ++ plog b.
+Proof.
+  induction ps as [|p ps IH]; intros a b Hsim; cbn [fold_left].
+  - split; [exact Hsim|]. exists []. split; reflexivity.
+  - destruct (poll_one_sim vr now endt force sg a b p Hsim) as [Hsim1 [ev1 [Ha1 Hb1]]].
+    destruct (IH _ _ Hsim1) as [Hsim2 [ev2 [Ha2 Hb2]]].
+    split; [exact Hsim2|]. exists (ev2 ++ ev1).
+    rewrite Ha2, Hb2, Ha1, Hb1, <- !app_assoc. split; reflexivity.
+Qed.
+
+Lemma polled_sim vr endt force (sk s1 : st) :
+  same_but_log sk s1 ->
+  pl_sim (polled vr endt force sk) (polled vr endt force s1) /\
+  exists ev, plog (polled vr endt force sk) = ev ++ log sk /\
+             plog (polled vr endt force s1) = ev ++ log s1.
+Proof.
+  intros (Hg & Hp & Hf & Hs & Hw). unfold polled. rewrite Hg, Hp, Hs.
+  destruct (poll_fold_sim vr (gt s1) endt force (sto s1) (procs s1) (acc0 sk) (acc0 s1))
+    as [Hsim [ev [Ha Hb]]].
+  { unfold pl_sim, acc0. cbn. rewrite Hp, Hf, Hw. repeat split; reflexivity. }
+  split; [exact Hsim|].
+  exists (ev ++ rev (drop_events Sg U (gt s1) (procs s1) (frt s1))).
+  rewrite Ha, Hb. unfold acc0. cbn [Sched.plog]. rewrite Hg, Hp, Hf, <- !app_assoc.
+  split; reflexivity.
+Qed.
+
+Lemma sublist_app_same {A} (pre l m : list A) : sublist l m -> sublist (pre ++ l) (pre ++ m).
+Proof. intros H. induction pre as [|x pre IH]; cbn [app]; [exact H|apply sub_take, IH]. Qed.
+
+Lemma sim_logs (pre lk l1 : list (event Sg)) :
+  strip_emits lk = strip_emits l1 -> sublist (only_emits lk) (only_emits l1) ->
+  strip_emits (pre ++ lk) = strip_emits (pre ++ l1) /\
+  sublist (only_emits (pre ++ lk)) (only_emits (pre ++ l1)).
+Proof.
+  intros Hs Ho. rewrite !strip_emits_app, !only_emits_app, Hs.
+  split; [reflexivity|apply sublist_app_same, Ho].
+Qed.
+
+Lemma strip_emits_row now x (l : list (event Sg)) : strip_emits (EEmit Sg now x :: l) = strip_emits l.
+Proof. reflexivity. Qed.
+Lemma only_emits_row now x (l : list (event Sg)) :
+  only_emits (EEmit Sg now x :: l) = EEmit Sg now x :: only_emits l.
+Proof. reflexivity. Qed.
+
+(* emitting has no effect on the simulation, and with a larger emit_step the rows are a
+   sub-list of the emit_step-1 rows *)
+Theorem iter_emit_step_sublist k endt force etk et1 sk s1 sk' fk' etk' okk s1' f1' et1' ok1 :
+  same_but_log sk s1 -> strip_emits (log sk) = strip_emits (log s1) ->
+  sublist (only_emits (log sk)) (only_emits (log s1)) ->
+  iterv vfixed (Some k) endt force etk sk = (sk', fk', etk', okk) ->
+  iterv vfixed None endt force et1 s1 = (s1', f1', et1', ok1) ->
+  same_but_log sk' s1' /\ strip_emits (log sk') = strip_emits (log s1') /\
+  sublist (only_emits (log sk')) (only_emits (log s1')) /\ fk' = f1' /\ okk = ok1.
+Proof.
+  intros Hsame Hstrip Hsub Hk H1.
+  destruct (polled_sim vfixed endt force sk s1 Hsame) as [Hsim [evp [Hlk Hl1]]].
+  destruct Hsame as (Hg & Hp & Hf & Hs & Hw).
+  destruct Hsim as (S1 & S2 & S3 & S4 & S5).
+  destruct (iter_cases _ _ _ _ _ _ _ _ _ _ Hk) as [Hokk [Hfk Ck]].
+  destruct (iter_cases _ _ _ _ _ _ _ _ _ _ H1) as [Hok1 [Hf1 C1]].
+  assert (Hoks : okk = ok1) by (rewrite Hokk, Hok1; exact S5).
+  assert (Hmain : same_but_log sk' s1' /\ strip_emits (log sk') = strip_emits (log s1') /\
+                  sublist (only_emits (log sk')) (only_emits (log s1'))).
+  { destruct Ck as [Ck|[Ck|[Ck|Ck]]].
+    - destruct Ck as (Hfullk & _ & _ & Hsk).
+      destruct C1 as [C1|[C1|[C1|C1]]].
+      + destruct C1 as (_ & _ & _ & Hs1). subst sk' s1'.
+        unfold same_but_log. cbn [Sched.gt Sched.procs Sched.frt Sched.sto Sched.wld Sched.log].
+        rewrite Hg, Hp, Hs, S1, S2, S4, Hlk, Hl1.
+        split; [repeat split; reflexivity|]. apply sim_logs; assumption.
+      + destruct C1 as (_ & Hq & _). cbn in Hq. discriminate.
+      + destruct C1 as (d & f2 & us & ev & sto' & procs' & rows & Hfull1 & _). congruence.
+      + destruct C1 as (d & Hfull1 & _). congruence.
+    - destruct Ck as (_ & Hq & _). cbn in Hq. discriminate.
+    - destruct Ck as (dk & f2k & usk & evk & stok' & procsk' & rowsk
+                      & Hfullk & Hdk & Hcolk & Hcomk & Hemk & Hsk).
+      destruct C1 as [C1|[C1|[C1|C1]]].
+      + destruct C1 as (Hfull1 & _). congruence.
+      + destruct C1 as (_ & Hq & _). cbn in Hq. discriminate.
+      + destruct C1 as (d1 & f21 & us1 & ev1 & sto1' & procs1' & rows1
+                        & Hfull1 & Hd1 & Hcol1 & Hcom1 & Hem1 & Hs1).
+        assert (dk = d1) by congruence. subst dk.
+        rewrite Hg, S4, S1, Hcol1 in Hcolk. inversion Hcolk; subst f2k usk evk.
+        rewrite Hs, Hp, Hcom1 in Hcomk. inversion Hcomk; subst stok' procsk'.
+        apply emit_after_none in Hem1. destruct Hem1 as [Hem1 _].
+        apply emit_after_fixed in Hemk. rewrite Hg in Hemk.
+        subst sk' s1' rows1.
+        unfold same_but_log. cbn [Sched.gt Sched.procs Sched.frt Sched.sto Sched.wld Sched.log].
+        rewrite Hg, S2, Hlk, Hl1.
+        split; [repeat split; reflexivity|].
+        destruct (sim_logs (rev ev1 ++ evp) (log sk) (log s1) Hstrip Hsub) as [G1 G2].
+        rewrite <- !app_assoc in G1, G2.
+        destruct Hemk as [Hemk|Hemk]; subst rowsk; cbn [app].
+        * rewrite strip_emits_row, only_emits_row. split; [exact G1|apply sub_skip, G2].
+        * rewrite !strip_emits_row, !only_emits_row. split; [exact G1|apply sub_take, G2].
+      + destruct C1 as (d1 & Hfull1 & Hd1 & _).
+        assert (dk = d1) by congruence. subst dk. lia.
+    - destruct Ck as (dk & Hfullk & Hdk & _ & Hsk).
+      destruct C1 as [C1|[C1|[C1|C1]]].
+      + destruct C1 as (Hfull1 & _). congruence.
+      + destruct C1 as (_ & Hq & _). cbn in Hq. discriminate.
+      + destruct C1 as (d1 & f21 & us1 & ev1 & sto1' & procs1' & rows1 & Hfull1 & Hd1 & _).
+        assert (dk = d1) by congruence. subst dk. lia.
+      + destruct C1 as (d1 & _ & _ & _ & Hs1). subst sk' s1'.
+        unfold same_but_log. cbn [Sched.gt Sched.procs Sched.frt Sched.sto Sched.wld Sched.log].
+        rewrite Hp, Hs, S1, S2, Hlk, Hl1.
+        split; [repeat split; reflexivity|]. apply sim_logs; assumption. }
+  destruct Hmain as (M1 & M2 & M3).
+  split; [exact M1|]. split; [exact M2|]. split; [exact M3|]. split; [|exact Hoks].
+  destruct M1 as (Hg' & _). rewrite Hfk, Hf1, Hg'. reflexivity.
+Qed.
+
+Theorem run_emit_step_sublist k fuel endt force : forall etk et1 sk s1 sk' okk,
+  same_but_log sk s1 -> strip_emits (log sk) = strip_emits (log s1) ->
+  sublist (only_emits (log sk)) (only_emits (log s1)) ->
+  runv vfixed (Some k) fuel endt force etk sk = (Some sk', okk) ->
+  exists s1', runv vfixed None fuel endt force et1 s1 = (Some s1', okk) /\
+    same_but_log sk' s1' /\ strip_emits (log sk') = strip_emits (log s1') /\
+    sublist (only_emits (log sk')) (only_emits (log s1')).
+Proof.
+  revert force.
+  induction fuel as [|n IH]; intros force etk et1 sk s1 sk' okk Hsame Hstrip Hsub Hrun.
+  - assert (Hg : gt sk = gt s1) by apply Hsame.
+    destruct ((gt sk <? endt) || force) eqn:Ec.
+    + rewrite run_zero in Hrun by exact Ec. discriminate.
+    + rewrite run_stop in Hrun by exact Ec. inversion Hrun; subst.
+      exists s1. rewrite run_stop by (rewrite <- Hg; exact Ec).
+      split; [reflexivity|]. split; [exact Hsame|]. split; assumption.
+  - assert (Hg : gt sk = gt s1) by apply Hsame.
+    destruct ((gt sk <? endt) || force) eqn:Ec.
+    + rewrite run_step in Hrun by exact Ec.
+      rewrite run_step by (rewrite <- Hg; exact Ec).
+      destruct (iterv vfixed (Some k) endt force etk sk) as [[[sk1 fk1] etk1] okk1] eqn:Eitk.
+      destruct (iterv vfixed None endt force et1 s1) as [[[s11 f11] et11] ok11] eqn:Eit1.
+      destruct (iter_emit_step_sublist _ _ _ _ _ _ _ _ _ _ _ _ _ _ _ Hsame Hstrip Hsub Eitk Eit1)
+        as (Hsame1 & Hstrip1 & Hsub1 & Hff & Hoo).
+      subst f11 ok11.
+      destruct (runv vfixed (Some k) n endt fk1 etk1 sk1) as [r ok2] eqn:Erun.
+      inversion Hrun; subst.
+      destruct (IH fk1 etk1 et11 sk1 s11 sk' ok2 Hsame1 Hstrip1 Hsub1 Erun)
+        as (s1' & Hrun1 & G1 & G2 & G3).
+      exists s1'. rewrite Hrun1. split; [reflexivity|]. split; [exact G1|]. split; assumption.
+    + rewrite run_stop in Hrun by exact Ec. inversion Hrun; subst.
+      exists s1. rewrite run_stop by (rewrite <- Hg; exact Ec).
+      split; [reflexivity|]. split; [exact Hsame|]. split; assumption.
+Qed.
 
 End Clock.
+
+Print Assumptions iter_upper.
+Print Assumptions iter_mono.
+Print Assumptions iter_progress.
+Print Assumptions iter_force_flag.
+Print Assumptions run_lands.
+Print Assumptions run_mono.
+Print Assumptions run_fuel_enough.
+Print Assumptions run_for_lands.
+Print Assumptions run_calls_land.
+Print Assumptions iter_log_shape.
+Print Assumptions iter_invokes.
+Print Assumptions run_invoke_ts.
+Print Assumptions run_calls_invoke_ts.
+Print Assumptions iter_row_content.
+Print Assumptions iter_rows_every_batch.
+Print Assumptions iter_rows_at_most_one.
+Print Assumptions iter_emits_increasing.
+Print Assumptions run_for_emits_increasing.
+Print Assumptions iter_emit_step_sublist.
+Print Assumptions run_emit_step_sublist.
